@@ -1,4 +1,5 @@
 import RotondaModel.Proofs.ConnMetrics
+import RotondaModel.Proofs.ConnMetricsProm
 /-!
 # ConnMetrics — the BMP unit's connection counters and the gate counters agree with what happened (extends C15)
 
@@ -29,6 +30,24 @@ every history, of any length, from any state.
 * `C15conn_concrete_refines`      with `Bmp.step` deciding what a message does (rejected / routing update / ends the
                                   session), the unit is the abstract unit run on the resolved history, so all of the
                                   above applies to it
+
+The Prometheus exposition (`metrics::Target`, `OutputFormat::Prometheus`; "the Prometheus text parses" of C15 and
+"label values are escaped as the exposition format requires" of C19):
+* `C19prom_escaped_roundtrip`     repaired `Target` (label values escaped): for all `append` calls whose metric / label
+                                  names are names and whose values print as integers, and **any** unit names and label
+                                  values, the text parses and the parser returns exactly the lines that were written,
+                                  every label value decoded to the string that was supplied (both grouping variants)
+* `C19prom_partial`               `Target` as written: the same, under the guard that no unit name / label value
+                                  contains a quote, a backslash or a newline
+* `C19prom_full`, `C19prom_counterexample`, `C19prom_injection_counterexample`  without the guard it is false: a quote
+                                  in a label value makes the text unparsable, or closes the value and adds a label
+* `C15prom_unique_repaired`       repaired `Target` (one block per metric): at most one `# HELP` / `# TYPE` line per
+                                  metric name, for every call sequence
+* `C15prom_unique_iff`            as written: the header lines are unique iff no two supported `append` calls name the
+                                  same metric — `C15prom_duplicate_counterexample`: two appends of one metric (what
+                                  every per-router source does) repeat both lines
+* `C15prom_group_lines`           the repaired `Target` writes no line the calls did not ask for, and every sample line
+                                  the calls ask for
 -/
 namespace Rotonda.ConnMetrics
 
@@ -568,5 +587,303 @@ theorem C15conn_concrete_refines (v : Bmp.Variant) (K : Bmp.Hdr → Bmp.Key) (cw
 example : ((CWorld.init.run Bmp.asWritten id [.ev (.accept 0 0), .msg 0 (.peerUp 0 true true), .msg 0 .init, .msg 0 .term]).w.mx.lost,
            (CWorld.init.run Bmp.asWritten id [.ev (.accept 0 0), .msg 0 (.peerUp 0 true true), .msg 0 .init]).w.mx.val 0 Field.invalid.get) = (1, 1) := by
   decide
+
+/-! ## The Prometheus exposition -/
+
+theorem callLines_live (c : Call) (h : c.metric.mtype ≠ .text) :
+    callLines c = .help (headName c) c.metric.help :: .type (headName c) c.metric.mtype ::
+      c.recs.map (recLine c.metric c.unitName) := by
+  unfold callLines headName
+  cases hm : c.metric.mtype <;> first | exact absurd hm h | rfl
+
+theorem callLines_text (c : Call) (h : c.metric.mtype = .text) : callLines c = [] := by
+  unfold callLines; rw [h]
+
+theorem mem_liveCalls {cs : List Call} {c : Call} : c ∈ liveCalls cs ↔ c ∈ cs ∧ c.metric.mtype ≠ .text := by
+  simp [liveCalls]
+
+/-- Every line of either variant is a line of one of the supported calls. -/
+theorem mem_linesOfV {group : Bool} {cs : List Call} {l : Line} (h : l ∈ linesOfV group cs) :
+    ∃ c ∈ cs, c.metric.mtype ≠ .text ∧ l ∈ callLines c := by
+  cases group with
+  | false =>
+    simp only [linesOfV, linesOf, List.mem_flatMap] at h
+    obtain ⟨c, hc, hl⟩ := h
+    by_cases ht : c.metric.mtype = .text
+    · rw [callLines_text c ht] at hl; simp at hl
+    · exact ⟨c, hc, ht, hl⟩
+  | true =>
+    simp only [linesOfV, groupLines, List.mem_flatMap] at h
+    obtain ⟨n, _, hl⟩ := h
+    unfold blockOf at hl
+    split at hl
+    · simp at hl
+    · rename_i c hfind
+      have hc := mem_liveCalls.mp (List.mem_of_find?_eq_some hfind)
+      have hn : headName c = n := by simpa using List.find?_some hfind
+      simp only [List.mem_cons, List.mem_flatMap, List.mem_filter] at hl
+      rcases hl with rfl | rfl | ⟨c', ⟨hc', _⟩, hl⟩
+      · exact ⟨c, hc.1, hc.2, by rw [callLines_live c hc.2, hn]; simp⟩
+      · exact ⟨c, hc.1, hc.2, by rw [callLines_live c hc.2, hn]; simp⟩
+      · have hc' := mem_liveCalls.mp hc'
+        exact ⟨c', hc'.1, hc'.2, by rw [callLines_live c' hc'.2]; simp [hl]⟩
+
+theorem componentLabel_lname : isLName componentLabel = true := by decide
+
+theorem callLines_wf (c : Call) (h : c.wf = true) : ∀ l ∈ callLines c, l.wf = true := by
+  intro l hl
+  by_cases ht : c.metric.mtype = .text
+  · rw [callLines_text c ht] at hl; simp at hl
+  · rw [callLines_live c ht] at hl
+    simp only [Call.wf, Bool.and_eq_true, List.all_eq_true] at h
+    obtain ⟨⟨⟨h1, h2⟩, h3⟩, h4⟩ := h
+    simp only [List.mem_cons, List.mem_map] at hl
+    rcases hl with rfl | rfl | ⟨r, hr, rfl⟩
+    · simp only [Line.wf, headName, h1, h2, Bool.true_and, List.all_eq_true]; exact h3
+    · simp [Line.wf, headName, h1, ht]
+    · obtain ⟨⟨hr1, hr2⟩, hr3⟩ := h4 r hr
+      cases hl : r.labels with
+      | none => cases hu : c.unitName <;> simp [recLine, Line.wf, hl, hu, hr1, hr2, componentLabel_lname]
+      | some ls =>
+        rw [hl] at hr3
+        have hr3' : ls.all (fun p => isLName p.1) = true := hr3
+        cases hu : c.unitName <;> simp only [recLine, Line.wf, hl, hu, hr1, hr2, componentLabel_lname, hr3',
+          List.all_cons, Bool.and_self]
+
+theorem linesOfV_wf (group : Bool) (cs : List Call) (h : cs.all Call.wf = true) :
+    (linesOfV group cs).all Line.wf = true := by
+  rw [List.all_eq_true] at h ⊢
+  intro l hl
+  obtain ⟨c, hc, _, hlc⟩ := mem_linesOfV hl
+  exact callLines_wf c (h c hc) l hlc
+
+/-- **C19 (label values are escaped as the exposition format requires) / C15 (the text parses) — repaired `Target`.**
+    For every sequence of `append` calls whose metric names (with unit and suffix) and label names are names of the
+    format, whose help texts need no escaping and whose values print as integers — and for **every** unit name and
+    **every** label value, whatever characters they contain — the text `Target` produces parses under the grammar of the
+    exposition format, and the parse returns exactly the lines the calls asked for, each label value decoded to the
+    string that was supplied: no string can change the structure of the document. Holds with and without grouping. -/
+theorem C19prom_escaped_roundtrip (group : Bool) (cs : List Call) (h : cs.all Call.wf = true) :
+    parse (renderV true group cs) = some (linesOfV group cs) :=
+  parse_render_lines _ (linesOfV_wf group cs h)
+
+-- quotes, backslashes, a newline and a forged sample line in the unit name and in a label value
+example : (([⟨⟨['m'], ['h'], .counter, .total⟩, some ['u', '\n', 'x', ' ', '1'], [⟨some [(['a'], ['b', '"', ',', 'c', '=', '"', '\\'])], none, ['1']⟩]⟩] : List Call).all Call.wf) = true := by
+  decide
+
+/-- A sample line whose label values need no escaping. -/
+def Line.clean : Line → Bool
+  | .sample _ (some ls) _ => ls.all (fun p => ConnMetrics.clean p.2)
+  | _ => true
+
+theorem renderPairs_clean (ls : List (Str × Str)) (h : ls.all (fun p => ConnMetrics.clean p.2) = true) :
+    renderPairs false ls = renderPairs true ls := by
+  induction ls with
+  | nil => rfl
+  | cons p ps ih =>
+    simp only [List.all_cons, Bool.and_eq_true] at h
+    have hp : renderPair false p = renderPair true p := by
+      simp [renderPair, escLabel_clean p.2 h.1 true, escLabel_clean p.2 h.1 false]
+    cases ps with
+    | nil => simp [renderPairs, hp]
+    | cons q ps => simp only [renderPairs, hp, ih h.2]
+
+theorem renderLine_clean (l : Line) (h : l.clean = true) : renderLine false l = renderLine true l := by
+  cases l with
+  | help n d => rfl
+  | type n t => rfl
+  | sample n ls v =>
+    cases ls with
+    | none => rfl
+    | some ls => simp only [renderLine, renderPairs_clean ls (by simpa [Line.clean] using h)]
+
+theorem callLines_clean (c : Call) (h : c.clean = true) : ∀ l ∈ callLines c, l.clean = true := by
+  intro l hl
+  by_cases ht : c.metric.mtype = .text
+  · rw [callLines_text c ht] at hl; simp at hl
+  · rw [callLines_live c ht] at hl
+    simp only [Call.clean, Bool.and_eq_true, List.all_eq_true] at h
+    obtain ⟨hu, hr⟩ := h
+    simp only [List.mem_cons, List.mem_map] at hl
+    rcases hl with rfl | rfl | ⟨r, hr', rfl⟩
+    · rfl
+    · rfl
+    · have := hr r hr'
+      simp only [recLine, Line.clean]
+      cases hl : r.labels <;> cases hun : c.unitName <;> simp [hl, hun] at this hu ⊢
+      · exact hu
+      · simpa [List.all_eq_true] using this
+      · exact ⟨hu, by simpa [List.all_eq_true] using this⟩
+
+theorem flatMap_congr' {α β} (l : List α) (f g : α → List β) (h : ∀ x ∈ l, f x = g x) : l.flatMap f = l.flatMap g := by
+  induction l with
+  | nil => rfl
+  | cons x xs ih => simp [List.flatMap_cons, h x (by simp), ih (fun y hy => h y (List.mem_cons_of_mem _ hy))]
+
+/-- **The same for `Target` as written, under the guard** that no unit name and no label value contains a quote, a
+    backslash or a newline. -/
+theorem C19prom_partial (group : Bool) (cs : List Call) (h : cs.all Call.wf = true) (hc : cs.all Call.clean = true) :
+    parse (renderV false group cs) = some (linesOfV group cs) := by
+  have e : renderV false group cs = renderV true group cs := by
+    unfold renderV
+    apply flatMap_congr'
+    intro l hl
+    obtain ⟨c, hcs, _, hlc⟩ := mem_linesOfV hl
+    exact renderLine_clean l (callLines_clean c (List.all_eq_true.mp hc c hcs) l hlc)
+  rw [e]; exact C19prom_escaped_roundtrip group cs h
+
+example : (([⟨⟨['m'], ['h'], .counter, .total⟩, some ['b', 'm', 'p', '-', 'i', 'n'], [⟨some [(['r'], ['R', '2'])], none, ['1']⟩]⟩] : List Call).all Call.clean) = true := by
+  decide
+
+/-- The statement for `Target` as written without the guard. -/
+def C19prom_full : Prop :=
+  ∀ cs : List Call, cs.all Call.wf = true → parse (renderV false false cs) = some (linesOfV false cs)
+
+/-- One `append` with the label `a="b\"c"`: what `Target` writes. -/
+def quoteWitness : List Call :=
+  [⟨⟨['m'], ['h'], .counter, .total⟩, some ['u'], [⟨some [(['a'], ['b', '"', 'c'])], none, ['1']⟩]⟩]
+
+/-- **The code as written violates it**: a quote in a label value and the text does not parse at all. -/
+theorem C19prom_counterexample : ¬ C19prom_full := by
+  intro h
+  have := h quoteWitness (by decide)
+  revert this; decide
+
+/-- … or worse, it parses into something else: the value `x",evil="1` closes its own quotes and the sample carries
+    a label `evil="1"` nobody supplied. -/
+theorem C19prom_injection_counterexample :
+    parse (render false [⟨⟨['m'], ['h'], .counter, .total⟩, some ['u'],
+      [⟨some [(['a'], ['x', '"', ',', 'e', 'v', 'i', 'l', '=', '"', '1'])], none, ['1']⟩]⟩]) =
+    some [.help ['r', 'o', 't', 'o', 'n', 'd', 'a', '_', 'm', '_', 't', 'o', 't', 'a', 'l'] ['h'],
+          .type ['r', 'o', 't', 'o', 'n', 'd', 'a', '_', 'm', '_', 't', 'o', 't', 'a', 'l'] .counter,
+          .sample ['r', 'o', 't', 'o', 'n', 'd', 'a', '_', 'm', '_', 't', 'o', 't', 'a', 'l']
+            (some [(componentLabel, ['u']), (['a'], ['x']), (['e', 'v', 'i', 'l'], ['1'])]) ['1']] := by
+  decide
+
+/-! ### One `# HELP` and one `# TYPE` line per metric name -/
+
+theorem firstNames_mem {x : Str} {l : List Str} (h : x ∈ firstNames l) : x ∈ l := by
+  induction l with
+  | nil => simp [firstNames] at h
+  | cons y ys ih =>
+    simp only [firstNames, List.mem_cons, List.mem_filter] at h
+    rcases h with rfl | ⟨h, _⟩
+    · simp
+    · exact List.mem_cons_of_mem _ (ih h)
+
+theorem firstNames_nodup (l : List Str) : (firstNames l).Nodup := by
+  induction l with
+  | nil => simp [firstNames]
+  | cons x xs ih =>
+    simp only [firstNames, List.nodup_cons, List.mem_filter, bne_self_eq_false, Bool.false_eq_true, and_false,
+      not_false_eq_true, true_and]
+    exact ih.sublist List.filter_sublist
+
+theorem helpNames_append (a b : List Line) : helpNames (a ++ b) = helpNames a ++ helpNames b := by
+  simp [helpNames, List.filterMap_append]
+theorem typeNames_append (a b : List Line) : typeNames (a ++ b) = typeNames a ++ typeNames b := by
+  simp [typeNames, List.filterMap_append]
+
+theorem names_samples (m : Metric) (u : Option Str) (rs : List Rec) :
+    helpNames (rs.map (recLine m u)) = [] ∧ typeNames (rs.map (recLine m u)) = [] := by
+  simp [helpNames, typeNames, List.filterMap_map, recLine, List.filterMap_eq_nil_iff]
+
+theorem names_sample_blocks (cs : List Call) :
+    helpNames (cs.flatMap (fun c => c.recs.map (recLine c.metric c.unitName))) = [] ∧
+    typeNames (cs.flatMap (fun c => c.recs.map (recLine c.metric c.unitName))) = [] := by
+  induction cs with
+  | nil => simp [helpNames, typeNames]
+  | cons c cs ih =>
+    simp only [List.flatMap_cons, helpNames_append, typeNames_append, ih.1, ih.2, (names_samples _ _ _).1,
+      (names_samples _ _ _).2, List.append_nil, and_self]
+
+/-- The header names of a block: its name, if some call has it. -/
+theorem names_block (live : List Call) (n : Str) :
+    helpNames (blockOf live n) = (if (live.find? (fun c => headName c == n)).isSome then [n] else []) ∧
+    typeNames (blockOf live n) = (if (live.find? (fun c => headName c == n)).isSome then [n] else []) := by
+  unfold blockOf
+  cases live.find? (fun c => headName c == n) with
+  | none => simp [helpNames, typeNames]
+  | some c =>
+    have := names_sample_blocks (live.filter (fun c => headName c == n))
+    simp only [helpNames, typeNames] at this
+    simp [helpNames, typeNames, this.1, this.2]
+
+theorem names_blocks (live : List Call) (ns : List Str) :
+    helpNames (ns.flatMap (blockOf live)) = ns.filter (fun n => (live.find? (fun c => headName c == n)).isSome) ∧
+    typeNames (ns.flatMap (blockOf live)) = ns.filter (fun n => (live.find? (fun c => headName c == n)).isSome) := by
+  induction ns with
+  | nil => simp [helpNames, typeNames]
+  | cons n ns ih =>
+    simp only [List.flatMap_cons, helpNames_append, typeNames_append, ih.1, ih.2, (names_block live n).1,
+      (names_block live n).2, List.filter_cons]
+    cases (live.find? (fun c => headName c == n)).isSome <;> simp
+
+/-- **C15 (the Prometheus text is a valid exposition) — repaired `Target`.** For every sequence of `append` calls the
+    grouped exposition has at most one `# HELP` and at most one `# TYPE` line per metric name. -/
+theorem C15prom_unique_repaired (cs : List Call) : UniqueMeta (groupLines cs) := by
+  unfold UniqueMeta groupLines
+  rw [(names_blocks _ _).1, (names_blocks _ _).2]
+  exact ⟨(firstNames_nodup _).sublist List.filter_sublist, (firstNames_nodup _).sublist List.filter_sublist⟩
+
+theorem names_linesOf (cs : List Call) :
+    helpNames (linesOf cs) = (liveCalls cs).map headName ∧ typeNames (linesOf cs) = (liveCalls cs).map headName := by
+  induction cs with
+  | nil => simp [linesOf, liveCalls, helpNames, typeNames]
+  | cons c cs ih =>
+    have e : linesOf (c :: cs) = callLines c ++ linesOf cs := by simp [linesOf]
+    rw [e, helpNames_append, typeNames_append, ih.1, ih.2]
+    by_cases ht : c.metric.mtype = .text
+    · simp [callLines_text c ht, liveCalls, ht, helpNames, typeNames]
+    · have hs := names_samples c.metric c.unitName c.recs
+      simp only [helpNames, typeNames] at hs
+      simp [callLines_live c ht, liveCalls, ht, helpNames, typeNames, hs.1, hs.2]
+
+/-- **As written**: the header lines are unique exactly when no two supported `append` calls are for one metric. -/
+theorem C15prom_unique_iff (cs : List Call) : UniqueMeta (linesOf cs) ↔ ((liveCalls cs).map headName).Nodup := by
+  unfold UniqueMeta; rw [(names_linesOf cs).1, (names_linesOf cs).2]; simp
+
+/-- The statement for `Target` as written. -/
+def C15prom_unique_full : Prop := ∀ cs : List Call, UniqueMeta (linesOf cs)
+
+/-- **The code as written violates it**: two `append`s of one metric — what `append_per_router_metric` does once per
+    connected router, and `BmpTcpInMetrics::append` once per message type — write `# HELP` and `# TYPE` twice. -/
+theorem C15prom_duplicate_counterexample : ¬ C15prom_unique_full := by
+  intro h
+  have := (C15prom_unique_iff
+    [⟨⟨['m'], ['h'], .counter, .total⟩, some ['u'], [⟨some [(['r'], ['1'])], none, ['1']⟩]⟩,
+     ⟨⟨['m'], ['h'], .counter, .total⟩, some ['u'], [⟨some [(['r'], ['2'])], none, ['1']⟩]⟩]).mp (h _)
+  revert this; decide
+
+/-- **The repaired `Target` loses and invents nothing**: every line it writes is a line one of the supported calls
+    asked for, and every sample line a supported call asked for is written. -/
+theorem C15prom_group_lines (cs : List Call) :
+    (∀ l ∈ groupLines cs, ∃ c ∈ cs, c.metric.mtype ≠ .text ∧ l ∈ callLines c) ∧
+    (∀ c ∈ cs, c.metric.mtype ≠ .text → ∀ r ∈ c.recs, recLine c.metric c.unitName r ∈ groupLines cs) := by
+  refine ⟨fun l hl => mem_linesOfV (group := true) hl, ?_⟩
+  intro c hc ht r hr
+  have hlive : c ∈ liveCalls cs := mem_liveCalls.mpr ⟨hc, ht⟩
+  have hfn : ∀ (l : List Str) (x : Str), x ∈ l → x ∈ firstNames l := by
+    intro l
+    induction l with
+    | nil => intro x hx; simp at hx
+    | cons y ys ih =>
+      intro x hx
+      simp only [firstNames, List.mem_cons, List.mem_filter]
+      by_cases hxy : x = y
+      · exact Or.inl hxy
+      · rcases List.mem_cons.mp hx with h | h
+        · exact absurd h hxy
+        · exact Or.inr ⟨ih x h, by simpa using hxy⟩
+  simp only [groupLines, List.mem_flatMap]
+  refine ⟨headName c, hfn _ _ (List.mem_map.mpr ⟨c, hlive, rfl⟩), ?_⟩
+  unfold blockOf
+  cases hf : (liveCalls cs).find? (fun c' => headName c' == headName c) with
+  | none =>
+    have := List.find?_eq_none.mp hf c hlive
+    simp at this
+  | some c0 =>
+    simp only [List.mem_cons, List.mem_flatMap, List.mem_filter, List.mem_map]
+    exact Or.inr (Or.inr ⟨c, ⟨hlive, by simp⟩, r, hr, rfl⟩)
 
 end Rotonda.ConnMetrics
